@@ -974,9 +974,10 @@ func (p *pp) printArg(arg Object, verb rune) {
 func intFromArg(a []Object, argNum int) (num int, isInt bool, newArgNum int) {
 	newArgNum = argNum
 	if argNum < len(a) {
-		var num64 int64
-		num64, isInt = ToInt64(a[argNum])
-		num = int(num64)
+		// width and precision operands must be of type Int
+		if n, ok := a[argNum].(*Int); ok {
+			num, isInt = int(n.Value), true
+		}
 		newArgNum = argNum + 1
 		if tooLarge(num) {
 			num = 0
